@@ -25,6 +25,7 @@ def run(ctx):
     e_all_matching_heads(ctx)
     d_members_copied(ctx)
     a_matchers_armed_before_start(ctx, temps)
+    b_refs_started_in_head(ctx, temps)
 
 
 def _segment_after(elems, g, st, start, stop_cls=("MergeHeads", "Abort")):
@@ -369,3 +370,71 @@ def a_matchers_armed_before_start(ctx, temps):
                   "the and-group template emits %d `start` statements in sequence and arms the Finished matchers only afterwards (witness %s): a member that finishes in the round it is started "
                   "(`await quick and slow`) is missed while the head waits for the next member's FlowStarted, so the statement never completes - `await slow and quick` does" % (k, where[1]),
                   line=(where[0] if where else 1))
+
+
+def b_refs_started_in_head(ctx, temps):
+    """The and-groups of one statement run as separately forked heads, and a head's local progress is all it can rely on: a `match $_ref_x.Finished()` is evaluated when
+    the head reaches it, so the temporary reference must have been assigned by a `start ... as $_ref_x` that the SAME head executed before.  A reference started only by a
+    sibling head may not exist yet (`Unknown variable`), which aborts the enclosing flow although the formula becomes true."""
+    from ..emit2 import Obj
+
+    def spec_members(sp):
+        if isinstance(sp, dict) and isinstance(sp.get("elements"), list):
+            return list(sp["elements"])
+        return [sp]
+
+    def temp_of_match(m):
+        v = None
+        if isinstance(m, Obj):
+            v = getattr(m, "attrs", {}).get("var_name")
+        elif isinstance(m, Rec) and m.cls == "Spec":
+            v = m.fields.get("var_name")
+        return v if isinstance(v, str) and v.startswith("_ref_") else None
+
+    def temp_of_start(m):
+        r = None
+        if isinstance(m, Obj):
+            r = getattr(m, "attrs", {}).get("ref")
+        elif isinstance(m, Rec) and m.cls == "Spec":
+            r = m.fields.get("ref")
+        if isinstance(r, Obj):
+            k = re.search(r"_create_ref_ast_dict_helper\((_ref_\w+)\)", r.path)
+            return k.group(1) if k else None
+        return None
+
+    per = {}
+    for fn, sizes, oracle, elems in temps:
+        if fn not in ("_expand_await_element", "_expand_when_stmt_element"):
+            continue
+        st = per.setdefault(fn, [0, None, 0])
+        st[2] += 1
+        started = set()
+        for e in elems:
+            if isinstance(e, Rec) and e.cls == "Label":
+                started = set()
+                continue
+            if not (isinstance(e, Rec) and e.cls == "SpecOp"):
+                continue
+            if e.fields.get("op") == "start":
+                for m in spec_members(e.fields.get("spec")):
+                    t = temp_of_start(m)
+                    if t:
+                        started.add(t)
+            elif e.fields.get("op") == "match":
+                for m in spec_members(e.fields.get("spec")):
+                    t = temp_of_match(m)
+                    if t:
+                        st[0] += 1
+                        if t not in started and st[1] is None:
+                            st[1] = (e.line, t, C12._sz(sizes))
+    if not per:
+        raise AnalysisError("no await/when templates", anchor=EXP + "::_expand_await_element")
+    total = 0
+    for fn, (n, bad, k) in sorted(per.items()):
+        total += n
+        ctx.check("C07.b.refs-started-in-head", EXP, fn, "every matched temporary reference is started by the same head", bad is None,
+                  "in all %d template instances each of the %d `match $_ref.Finished()` members follows a `start ... as $_ref` in its own head" % (k, n) if bad is None else
+                  "a head matches on `$%s` (witness %s) which it did not start itself: when the heads of the and-groups run, the reference may not have been assigned yet "
+                  "(Unknown variable), the enclosing flow is aborted and the statement never completes - depending on how the formula is spelled" % (bad[1], bad[2]),
+                  line=(bad[0] if bad else 1))
+    ctx.floor("C07.b.refs-started-in-head", EXP, "matches on temporary references in the await/when templates", total, 4)
